@@ -1179,3 +1179,6 @@ PROPS["C18"] = {
     "explanation": "Ordering obligations of the locking mechanism proved on the real text; level 'other' because the cross-handle / cross-process clause itself rests on the operating system.",
     "does_not_cover": ["flock(2) semantics between handles and processes", "what DbInner::open does in front of the lock (create_dir_all, lock file creation)", "read-only opens of a directory without database (fix ad874f8 is outside the contracts)", "process death"],
 }
+
+# ---------------------------------------------------------------- U52 extension: apply writes land in the slot the record names
+PROPS["C13"]["claim"] = PROPS["C13"]["claim"] + " Every write of ValueTable::enact_plan starts at the byte offset of the slot the record names (header records at offset 0) and takes its bytes from the front of the entry buffer the record was read into (Verus, fragment)."
